@@ -2,7 +2,7 @@
    Each Props/Cxx.v requires only its own file; this one is the whole layer (make Xlate/Tie.vo). *)
 From TarsV Require Xlate.TarsRequestEquiv Xlate.CodecEquiv Xlate.ParseEquiv Xlate.BSWLEquiv Xlate.CheckActiveEquiv
   Xlate.ReaderEquiv Xlate.ReaderSliceEquiv Xlate.ReqIdEquiv Xlate.SelectEquiv Xlate.ConHashEquiv Xlate.FloatEquiv Xlate.TimeWheelEquiv Xlate.SWRREquiv Xlate.RecvEquiv
-  Xlate.InvokeEquiv Xlate.ReplyEquiv Xlate.TupEquiv Xlate.TupDecodeEquiv.
+  Xlate.InvokeEquiv Xlate.ReplyEquiv Xlate.TupEquiv Xlate.TupDecodeEquiv Xlate.RecvEventsEquiv Xlate.TarsInvokeEquiv Xlate.AdapterRecvEquiv.
 
 Print Assumptions TarsRequestEquiv.tr_TarsRequest_equiv.
 Print Assumptions CodecEquiv.tr_WriteHead_equiv.
@@ -59,3 +59,10 @@ Print Assumptions TupEquiv.tr_tup_Encode_entry_equiv.
 Print Assumptions TupEquiv.go_tup_encode_equiv.
 Print Assumptions TupDecodeEquiv.tr_tup_Decode_equiv.
 Print Assumptions TupDecodeEquiv.tr_tup_Decode_fresh.
+Print Assumptions RecvEventsEquiv.srv_events_is_model.
+Print Assumptions RecvEventsEquiv.cli_events_is_model.
+Print Assumptions TarsInvokeEquiv.tr_TarsInvoke_req_equiv.
+Print Assumptions TarsInvokeEquiv.tr_TarsInvoke_timeout_equiv.
+Print Assumptions TarsInvokeEquiv.tarsinvoke_request_id.
+Print Assumptions AdapterRecvEquiv.tr_adapter_Recv_equiv.
+Print Assumptions AdapterRecvEquiv.adapter_Recv_timer.
